@@ -107,7 +107,7 @@ func removeTagOp(id b6.FeatureID, k string) Op {
 	return Op{Kind: OpRemoveTag, ID: id, Key: k, Name: fmt.Sprintf("RemoveTag(%s,%s)", IDName(id), k)}
 }
 func addFeatureOp(tag string, f wk.FSpec) Op {
-	return Op{Kind: OpAddFeature, ID: f.ID, F: &f, Tag: tag, Name: fmt.Sprintf("AddFeature(%s)", f.String()), }
+	return Op{Kind: OpAddFeature, ID: f.ID, F: &f, Tag: tag, Name: fmt.Sprintf("AddFeature(%s)", f.String())}
 }
 
 // TagOps is every AddTag/RemoveTag on the ids over keys x vals.
